@@ -71,6 +71,10 @@ def correspondence(res, tier, rng):
         elif i == 1:
             d, ev, pattern = 2, [0.5, 0.5], "total"
         n = rng.randrange(2, 4 if d == 2 else 3)
+        beyond = (i == 2)
+        if beyond:
+            d, n = 2, 4
+            ev, pattern = dyadic_eigs(rng, d)
         kind = "nondiag" if (i % 3 == 2 and len(set(ev)) == d) else "diag"
         coupling = np.diag(np.array(ev, dtype=complex))
         if kind == "nondiag":
@@ -78,6 +82,12 @@ def correspondence(res, tier, rng):
             coupling = v @ coupling @ v.conj().T
             coupling = (coupling + coupling.conj().T) / 2
         case = cases.physical_case(rng, tier, d=d, n=n)
+        if beyond:
+            # four steps with a memory of one step and an additional correlation time of 1.5 dt:
+            # the back-integrated tables (dk = -1, -2, -3) differ from each other and must be
+            # reduced like all others
+            case["dkmax"], case["tau"] = 1, 1.5 * case["dt"]
+            case["desc"]["dkmax"], case["desc"]["add_correlation_time"] = 1, case["tau"]
         case["coupling"] = coupling
         case["desc"]["coupling"] = "%s:%s" % (kind, pattern)
         tu = cases.make_tempo(case, unique=True)
@@ -86,15 +96,19 @@ def correspondence(res, tier, rng):
         # exact check: reduced real tables = full real tables at the first positions
         for dk in tensors.needed_ids(case["dkmax"], case["tau"] is not None, n):
             red = tu._influence(dk)
-            tu._unique = False
-            full = tu._influence(dk)
-            tu._unique = True
+            full = oqupy.tempo.influence_matrix(dk, parameters=tu._parameters,
+                                                correlations=tu._correlations,
+                                                coupling_acomm=bath.coupling_acomm,
+                                                coupling_comm=bath.coupling_comm)
             npos = [int(np.where(north == c)[0][0]) for c in range(north.max() + 1)]
             wpos = [int(np.where(west == c)[0][0]) for c in range(west.max() + 1)]
-            exp_red = np.diag(full)[npos] if dk == 0 else full[np.ix_(npos, wpos)]
-            if red.shape != exp_red.shape or not np.array_equal(red, exp_red):
+            exp_red = None if full is None else (np.diag(full)[npos] if dk == 0
+                                                 else full[np.ix_(npos, wpos)])
+            if red is None or full is None or red.shape != exp_red.shape \
+                    or not np.array_equal(red, exp_red):
                 res.disagree("reduced influence table is not the full table at the class "
-                             "representatives", {"case": case["desc"], "dk": dk})
+                             "representatives", {"case": case["desc"], "dk": dk,
+                                                 "reduced_is_None": red is None})
         line = tensors.tempo_line(tu, n) + " | north " + " ".join(str(int(x)) for x in north) \
             + " | west " + " ".join(str(int(x)) for x in west)
         dyn_u = tu.compute(cases.end_time(case), progress_type="silent")
@@ -185,11 +199,14 @@ def search(res):
             d, ev, pattern = 3, [1.0, 1.0, 2.0], "repeated"
         case = cases.physical_case(rng, "quick", d=d, n=2 if d > 2 else 3)
         case["coupling"] = np.diag(np.array(ev, dtype=complex))
-        if i == 1:
+        if i in (1, 2):
             # beyond a finite memory with an additional correlation time (the back-integrated
-            # tables, dk < 0, must be reduced like all others)
-            case["dkmax"], case["tau"] = 1, 0.7 * case["dt"]
+            # tables, dk < 0, must be reduced like all others; they keep changing while the
+            # additional time is being used up)
+            case["dkmax"], case["tau"] = 1, (0.7 if i == 1 else 1.5) * case["dt"]
+            case["n"] = (4 if d == 2 else 3) if i == 1 else 6
             case["desc"]["dkmax"], case["desc"]["add_correlation_time"] = 1, case["tau"]
+            case["desc"]["n"] = case["n"]
         states = {}
         try:
             for unique in (False, True):
